@@ -404,13 +404,14 @@ def _points(draw, lo=-700.0):
 
 @st.composite
 def ray_histories(draw):
-    family = draw(st.sampled_from(["specialized", "specialized", "basic", "uniform", "layered"]))
+    family = draw(st.sampled_from(["specialized", "specialized", "basic", "uniform", "uniform", "layered"]))
     obj = draw(st.sampled_from(["tracer", "path", "path"]))
     if family == "layered":
         obj = "tracer"
     attrs = dict(from_point=draw(_points()), to_point=draw(_points()))
     ices = [ICE_A, ICE_G] if family in ("specialized", "basic") else [ICE_U1, ICE_U2]
     attrs["ice"] = draw(st.integers(0, 1))
+    cur_ice = attrs["ice"]
     if family in ("specialized", "basic"):
         attrs["dz"] = draw(st.sampled_from([1.0, 2.0, 0.5]))
     if family in ("uniform", "layered"):
@@ -441,7 +442,11 @@ def ray_histories(draw):
         if a in ("from_point", "to_point"):
             v = draw(_points())
         elif a == "ice":
+            # (mostly the *other* ice model: re-assigning the current one decides nothing)
             v = draw(st.integers(0, 1))
+            if v == cur_ice and draw(st.integers(0, 3)) != 0:
+                v = 1 - v
+            cur_ice = v
         elif a == "dz":
             v = draw(st.sampled_from([1.0, 2.0, 0.5, 0.25]))
         elif a == "max_reflections":
@@ -686,7 +691,7 @@ PROPERTY = Property(
                       "assignments of every documented attribute (from_point, to_point, ice, dz, theta0, direct, "
                       "max_reflections, uniformity_factor, beta_tolerance); each read is compared with a freshly "
                       "constructed object with the same attribute values; non-trivial = read -> assign -> read",
-                 floors={"read_mutate_read": 0.3}, classify=_classify_ray),
+                 floors={"read_mutate_read": 0.3, "uniform": 0.06, "set_ice": 0.12}, classify=_classify_ray),
     ],
     assumptions=[
         "the eager evaluator samples on exactly representable (dyadic) grids so that the number of buffer "
